@@ -7,7 +7,7 @@ def run(tier):
     run = Run("C12", tier)
     run.confirm_known()
     conds = []
-    to = 600 if tier == "quick" else 3600
+    to = 900 if tier == "quick" else 3600
     # (spec, ops, target word indices, split the first op over parallel conditions?); the target lists contain a word that is a
     # strict prefix of a sentence (prefix: 2 = "xy", rec: 2 = "a=", list: 3 = "a,") so that the prefix-mode observations are non-empty
     if tier == "quick":
